@@ -4,7 +4,9 @@ package main
 //
 // Drives the real kv/table builder (Add and the stream writer), the real reader obtained through
 // the reader cache, table.NewMergedIterator, and version lookups of a real kv store
-// (FindFiles / FindReaders / Load of a snapshot).  The driver offers keys and values and writes
+// (FindFiles / FindReaders / Load of a snapshot); "levels" histories put several files with
+// overlapping / nested / identical key ranges into levels 1 and 2 (edit logs on a real version set;
+// real flushes + level-0 compactions with the union merger) and repeat every lookup 32 times.  The driver offers keys and values and writes
 // down what the code answers; keys are logged as <<high 16, low 16>> pairs, values as interned
 // ids of their bytes (equal bytes <=> equal id).  TLC judges every answer against spec/TableFile.tla.
 
@@ -16,6 +18,7 @@ import (
 	"math/rand"
 	"os"
 	"path/filepath"
+	"runtime"
 	"sort"
 	"strconv"
 	"strings"
@@ -190,6 +193,9 @@ type tblFile struct {
 	t      int
 	fn     table.FileNumber
 	closed bool
+	min    uint32 // the builder's MinKey / MaxKey / Size at Close (metadata of an installed file)
+	max    uint32
+	size   uint32
 	keys   []uint32 // as accepted according to the builder's own count (only to choose probes)
 	offers []uint32
 }
@@ -199,6 +205,11 @@ func projOf(b table.Builder) trace.F {
 }
 
 func (r *tblRun) buildTable(dir string, fn table.FileNumber, maxN int) (*tblFile, error) {
+	return r.buildTableOf(dir, fn, maxN, nil)
+}
+
+// buildTableOf: offers == nil: generated keys; else exactly these keys in this order
+func (r *tblRun) buildTableOf(dir string, fn table.FileNumber, maxN int, given []uint32) (*tblFile, error) {
 	r.nextT++
 	tf := &tblFile{t: r.nextT, fn: fn}
 	b, err := table.NewStoreBuilder(fn, filepath.Join(dir, version.Table(fn)))
@@ -207,7 +218,9 @@ func (r *tblRun) buildTable(dir string, fn table.FileNumber, maxN int) (*tblFile
 	}
 	r.emit("Create", trace.F{"t": tf.t})
 	var offers []uint32
-	if r.rng.Intn(25) != 0 {
+	if given != nil {
+		offers = given
+	} else if r.rng.Intn(25) != 0 {
 		offers = r.genKeys(maxN)
 	}
 	streamMode := r.rng.Intn(3) // 0 add only, 1 stream only, 2 mixed
@@ -256,6 +269,7 @@ func (r *tblRun) buildTable(dir string, fn table.FileNumber, maxN int) (*tblFile
 	cerr := b.Close()
 	r.emit("Close", trace.F{"t": tf.t, "err": cerr != nil})
 	tf.closed = cerr == nil
+	tf.min, tf.max, tf.size = b.MinKey(), b.MaxKey(), b.Size()
 	return tf, nil
 }
 
@@ -576,6 +590,536 @@ func (r *tblRun) probeVersion(fam kv.Family, keys []uint32, nprobe int) {
 	}
 }
 
+// ---------------------------------------------------------------- levels: several files of a level above 0 cover one key
+
+const levelReps = 32 // the files of a level sit in a Go map: every lookup is repeated to see its visiting orders
+
+// levelPool: n ascending keys with small gaps (sometimes across a 65536 boundary)
+func (r *tblRun) levelPool(n int) []uint32 {
+	var base uint64
+	switch r.rng.Intn(4) {
+	case 0:
+		base = 1
+	case 1:
+		base = uint64(1+r.rng.Intn(4))*65536 - uint64(1+r.rng.Intn(3*n))
+	case 2:
+		base = uint64(r.rng.Intn(1 << 30))
+	default:
+		base = 100 + uint64(r.rng.Intn(100000))
+	}
+	pool := make([]uint32, n)
+	k := base
+	for i := range pool {
+		k += 2 + uint64(r.rng.Intn(40)) // never adjacent: k+1 / k-1 are absent keys
+		pool[i] = uint32(k)
+	}
+	return pool
+}
+
+// levelProbes: every key of the pool, the keys next to the ends of every file, the ends of the key space
+func (r *tblRun) levelProbes(pool []uint32, snap version.Snapshot) []uint32 {
+	set := map[uint32]bool{0: true, math.MaxUint32: true}
+	for _, k := range pool {
+		set[k] = true
+	}
+	for _, fm := range snap.GetCurrent().GetAllFiles() {
+		set[fm.GetMinKey()-1] = true
+		set[fm.GetMaxKey()+1] = true
+	}
+	for i := 0; i < 3; i++ {
+		set[pool[r.rng.Intn(len(pool))]+1] = true
+	}
+	out := make([]uint32, 0, len(set))
+	for k := range set {
+		out = append(out, k)
+	}
+	sort.Slice(out, func(i, j int) bool { return out[i] < out[j] })
+	return out
+}
+
+// probeLevels: FindFiles / FindReaders and Load of every probe key, reps times, each answer its own event;
+// val: how a loaded value is written down (interned id, or its atoms)
+func (r *tblRun) probeLevels(getSnap func() version.Snapshot, pool []uint32, reps int, val func([]byte) any, bad any) {
+	first := getSnap()
+	probes := r.levelProbes(pool, first)
+	first.Close()
+	for rep := 0; rep < reps; rep++ {
+		snap := getSnap()
+		for i, k := range probes {
+			fs := make([]int, 0)
+			if (rep+i)%2 == 0 {
+				for _, fm := range snap.GetCurrent().FindFiles(k) {
+					fs = append(fs, int(fm.GetFileNumber()))
+				}
+			} else {
+				rds, err := snap.FindReaders(k)
+				if err != nil {
+					fs = append(fs, -1)
+				}
+				for _, rd := range rds {
+					fs = append(fs, fileNum(rd.FileName()))
+				}
+			}
+			r.emit("Found", trace.F{"k": kp(k), "fs": fs})
+			vs := make([]any, 0)
+			err := snap.Load(k, func(value []byte) error {
+				vs = append(vs, val(value))
+				return nil
+			})
+			if err != nil {
+				vs = append(vs, bad)
+			}
+			r.emit("Loaded", trace.F{"k": kp(k), "vs": vs})
+		}
+		snap.Close()
+	}
+}
+
+type lvlFile struct {
+	lvl      int
+	min, max uint32
+}
+
+func listLevels(snap version.Snapshot, levels int) map[int]lvlFile {
+	out := map[int]lvlFile{}
+	v := snap.GetCurrent()
+	for l := 0; l < levels; l++ {
+		for _, fm := range v.GetFiles(l) {
+			n := int(fm.GetFileNumber())
+			if _, dup := out[n]; dup {
+				n = -n // one file in two levels: no listing of the specification has it
+			}
+			out[n] = lvlFile{lvl: l, min: fm.GetMinKey(), max: fm.GetMaxKey()}
+		}
+	}
+	return out
+}
+
+func (r *tblRun) emitListed(getSnap func() version.Snapshot, levels int) map[int]lvlFile {
+	snap := getSnap()
+	cur := listLevels(snap, levels)
+	// every file of GetAllFiles must be one of the listed ones
+	all := snap.GetCurrent().GetAllFiles()
+	snap.Close()
+	files := make([][]int, 0, len(cur))
+	for n, f := range cur {
+		files = append(files, []int{n, f.lvl})
+	}
+	for _, fm := range all {
+		if _, ok := cur[int(fm.GetFileNumber())]; !ok {
+			files = append(files, []int{int(fm.GetFileNumber()), -1})
+		}
+	}
+	if len(all) != len(cur) {
+		files = append(files, []int{-1, -1})
+	}
+	sort.Slice(files, func(i, j int) bool { return files[i][0] < files[j][0] })
+	r.emit("Listed", trace.F{"files": files})
+	return cur
+}
+
+// pick: a subset of pool[a:b] (every key with probability 1/2) plus the keys of always, ascending
+func (r *tblRun) pick(pool []uint32, a, b int, always ...uint32) []uint32 {
+	set := map[uint32]bool{}
+	for _, k := range always {
+		set[k] = true
+	}
+	for _, k := range pool[a:b] {
+		if r.rng.Intn(2) == 0 {
+			set[k] = true
+		}
+	}
+	out := make([]uint32, 0, len(set))
+	for k := range set {
+		out = append(out, k)
+	}
+	sort.Slice(out, func(i, j int) bool { return out[i] < out[j] })
+	return out
+}
+
+// levelEditLogHistory: tables written by the (traced) builder are installed in levels 1 / 2 (some in 0) of a real
+// version set through edit logs, the way a compaction / rollup commit installs its outputs.  The first two tables
+// always go to ONE level above 0 with nested ranges and a common key; the others take any shape: the whole pool,
+// a slice inside an earlier file, the ends of an earlier file with other keys between, one key.
+func (r *tblRun) levelEditLogHistory(h int, variant int) {
+	r.rec.Reset(trace.F{"h": h, "mode": "levels"})
+	root := filepath.Join(r.scratch, fmt.Sprintf("l%d", h))
+	dir := filepath.Join(root, "fam")
+	_ = os.MkdirAll(dir, 0o755)
+	defer os.RemoveAll(root)
+	levels := 2 + r.rng.Intn(2)
+	cache := table.NewCache(root, time.Hour)
+	vs := version.NewStoreVersionSet(root, cache, levels)
+	fv := vs.CreateFamilyVersion("fam", 1)
+	defer func() {
+		_ = vs.Destroy()
+		_ = cache.Close()
+	}()
+	if err := vs.Recover(); err != nil {
+		r.sum.Unresolved = append(r.sum.Unresolved, "version set: "+err.Error())
+		return
+	}
+	getSnap := func() version.Snapshot { return fv.GetSnapshot() }
+	val := func(b []byte) any { return r.vid(b) }
+
+	pool := r.levelPool(8 + r.rng.Intn(6))
+	n := len(pool)
+	nt := 2 + r.rng.Intn(3)
+	if variant%2 == 0 && nt < 3 {
+		nt = 3 // (a later file leaves again)
+	}
+	up := 1 + r.rng.Intn(levels-1) // the level of the first two files
+	type inst struct {
+		tf  *tblFile
+		lvl int
+	}
+	var pending []inst
+	var installed []inst
+	var shapes [][]uint32
+	for i := 0; i < nt; i++ {
+		var offers []uint32
+		lvl := up
+		switch {
+		case i == 0: // wide: both ends of the pool
+			offers = r.pick(pool, 0, n, pool[0], pool[n-1], pool[n/2])
+		case i == 1: // nested in the first one, one key in common, one of its own
+			own := pool[n/2-1]
+			if own == pool[0] {
+				own = pool[1]
+			}
+			offers = r.pick(pool, 2, n-2, pool[n/2], own)
+		default:
+			lvl = r.rng.Intn(levels)
+			prev := shapes[r.rng.Intn(len(shapes))]
+			switch r.rng.Intn(5) {
+			case 0: // the same range as an earlier file, other keys between its ends
+				offers = r.pick(pool, 0, n, prev[0], prev[len(prev)-1])
+				var cut []uint32
+				for _, k := range offers {
+					if k >= prev[0] && k <= prev[len(prev)-1] {
+						cut = append(cut, k)
+					}
+				}
+				offers = cut
+			case 1: // exactly the keys of an earlier file
+				offers = append([]uint32{}, prev...)
+			case 2: // one key
+				offers = []uint32{pool[r.rng.Intn(n)]}
+			case 3: // a slice
+				a := r.rng.Intn(n)
+				b := a + 1 + r.rng.Intn(n-a)
+				offers = append([]uint32{}, pool[a:b]...)
+			default:
+				offers = r.pick(pool, 0, n, pool[r.rng.Intn(n)])
+			}
+		}
+		shapes = append(shapes, offers)
+		tf, err := r.buildTableOf(dir, vs.NextFileNumber(), 0, offers)
+		if err != nil {
+			r.sum.Unresolved = append(r.sum.Unresolved, "builder i/o: "+err.Error())
+			return
+		}
+		if !tf.closed {
+			continue
+		}
+		pending = append(pending, inst{tf, lvl})
+	}
+	if r.rng.Intn(2) == 0 { // the nested file first
+		pending[0], pending[1] = pending[1], pending[0]
+	}
+	commit := func(batch []inst, del []inst) bool {
+		el := version.NewEditLog(1)
+		for _, in := range batch {
+			el.Add(version.CreateNewFile(int32(in.lvl), version.NewFileMeta(in.tf.fn, in.tf.min, in.tf.max, in.tf.size)))
+		}
+		for _, in := range del {
+			el.Add(version.NewDeleteFile(int32(in.lvl), in.tf.fn))
+		}
+		if err := vs.CommitFamilyEditLog("fam", el); err != nil {
+			r.sum.Unresolved = append(r.sum.Unresolved, "commit edit log: "+err.Error())
+			return false
+		}
+		snap := getSnap()
+		cur := listLevels(snap, levels)
+		snap.Close()
+		for _, in := range batch { // what the new version says about the file (an uninstalled file: level -1)
+			f, ok := cur[int(in.tf.fn)]
+			if !ok {
+				f = lvlFile{lvl: -1}
+			}
+			r.emit("Installed", trace.F{"f": int(in.tf.fn), "t": in.tf.t, "lvl": f.lvl, "min": kp(f.min), "max": kp(f.max)})
+		}
+		for _, in := range del { // (a file that stays in spite of the log shows in the listing below)
+			r.emit("Removed", trace.F{"f": int(in.tf.fn)})
+		}
+		r.emitListed(getSnap, levels)
+		return true
+	}
+	// the first two in one edit log or in two, the rest in further ones
+	for len(pending) > 0 {
+		c := 1 + r.rng.Intn(len(pending))
+		if !commit(pending[:c], nil) {
+			return
+		}
+		installed = append(installed, pending[:c]...)
+		pending = pending[c:]
+		if len(pending) > 0 && len(installed) >= 2 {
+			r.probeLevels(getSnap, pool, 2, val, -1)
+		}
+	}
+	r.probeLevels(getSnap, pool, levelReps, val, -1)
+	if len(installed) > 2 && (variant%2 == 0 || r.rng.Intn(3) == 0) { // one of the later files leaves again
+		j := 2 + r.rng.Intn(len(installed)-2)
+		if !commit(nil, []inst{installed[j]}) {
+			return
+		}
+		r.probeLevels(getSnap, pool, 4, val, -1)
+	}
+	if r.rng.Intn(2) == 0 { // the same version recovered from the manifest
+		_ = vs.Destroy()
+		_ = cache.Close()
+		cache = table.NewCache(root, time.Hour)
+		vs = version.NewStoreVersionSet(root, cache, levels)
+		fv = vs.CreateFamilyVersion("fam", 1)
+		if err := vs.Recover(); err != nil {
+			r.sum.Unresolved = append(r.sum.Unresolved, "version set recover: "+err.Error())
+			return
+		}
+		r.emitListed(getSnap, levels)
+		r.probeLevels(getSnap, pool, 8, val, -1)
+	}
+}
+
+// levelCompactHistory: a real family with the union merger; flushes and level-0 compactions, scripted so that a
+// later compaction does not take an earlier output although its own output encloses it (round 1: files inside the
+// core of the pool; round 2: one file left of the core and one right of it; round 3: further out), then random
+// steps (flush anywhere, compact, single-file compaction through the store check: merge or move).
+func (r *tblRun) levelCompactHistory(h int, variant int) {
+	r.rec.Reset(trace.F{"h": h, "mode": "levels"})
+	registerUnionMerger()
+	path := filepath.Join(r.scratch, fmt.Sprintf("c%d", h))
+	defer os.RemoveAll(path)
+	opt := kv.DefaultStoreOption()
+	store, err := kv.GetStoreManager().CreateStore(path, opt)
+	if err != nil {
+		r.sum.Unresolved = append(r.sum.Unresolved, "create store: "+err.Error())
+		return
+	}
+	closed := false
+	defer func() {
+		if !closed {
+			_ = kv.GetStoreManager().CloseStore(path)
+		}
+	}()
+	defer r.onPanic()
+	fopt := kv.FamilyOption{Merger: unionMerger, CompactThreshold: 1}
+	switch r.rng.Intn(3) { // the outputs of one compaction are cut by size
+	case 0:
+		fopt.MaxFileSize = uint32(4 + r.rng.Intn(12))
+	case 1:
+		fopt.MaxFileSize = uint32(16 + r.rng.Intn(40))
+	}
+	fam, err := store.CreateFamily("f", fopt)
+	if err != nil {
+		r.sum.Unresolved = append(r.sum.Unresolved, "create family: "+err.Error())
+		return
+	}
+	levels := opt.Levels
+	getSnap := func() version.Snapshot { return fam.GetSnapshot() }
+	atomsOf := func(b []byte) any {
+		out := make([]int, 0, len(b)/4+1)
+		for i := 0; i+4 <= len(b); i += 4 {
+			out = append(out, int(binary.LittleEndian.Uint32(b[i:])))
+		}
+		if len(b)%4 != 0 {
+			out = append(out, -1)
+		}
+		return out
+	}
+	bad := []int{-1}
+	atom := uint32(0)
+	known := r.emitListed(getSnap, levels)
+
+	flush := func(keys []uint32) bool {
+		fl := fam.NewFlusher()
+		puts := make([][]any, 0, len(keys))
+		for _, k := range keys {
+			var as []uint32
+			for c := 1 + r.rng.Intn(2); c > 0; c-- {
+				atom++
+				as = append(as, atom)
+			}
+			v := encodeAtomsLE(as)
+			if err := fl.Add(k, v); err != nil {
+				r.sum.Unresolved = append(r.sum.Unresolved, "flusher i/o: "+err.Error())
+				fl.Release()
+				return false
+			}
+			puts = append(puts, []any{kp(k), atomsOf(v), len(v)})
+		}
+		err := fl.Commit()
+		fl.Release()
+		if err != nil {
+			r.sum.Unresolved = append(r.sum.Unresolved, "flusher commit: "+err.Error())
+			return false
+		}
+		snap := getSnap()
+		cur := listLevels(snap, levels)
+		snap.Close()
+		added := -1
+		nadded := 0
+		for n := range cur {
+			if _, ok := known[n]; !ok {
+				added = n
+				nadded++
+			}
+		}
+		if nadded != 1 {
+			r.emit("Flushed", trace.F{"f": -1, "puts": puts, "min": kp(0), "max": kp(0), "files": nadded})
+			return false
+		}
+		r.emit("Flushed", trace.F{"f": added, "puts": puts, "min": kp(cur[added].min), "max": kp(cur[added].max)})
+		known = r.emitListed(getSnap, levels)
+		return true
+	}
+	// one run of the compaction job (Family.Compact with two or more level-0 files, the store's check with one),
+	// observed as the difference of the version before and after
+	compact := func() bool {
+		n0 := 0
+		for _, f := range known {
+			if f.lvl == 0 {
+				n0++
+			}
+		}
+		switch {
+		case n0 > 1:
+			fam.Compact()
+		case n0 == 1:
+			kv.VerifCompactStore(store)
+		default:
+			return true
+		}
+		kv.VerifWaitFamily(fam)
+		for i := 0; kv.VerifIsCompacting(fam); i++ { // the flag is cleared right after the job's wait group
+			if i > 5_000_000 {
+				r.sum.Unresolved = append(r.sum.Unresolved, "compaction flag stays set")
+				return false
+			}
+			runtime.Gosched()
+		}
+		snap := getSnap()
+		cur := listLevels(snap, levels)
+		snap.Close()
+		ins, outs := make([]int, 0), make([]trace.F, 0)
+		var outNums, moved []int
+		for n, f := range known {
+			g, ok := cur[n]
+			if !ok {
+				ins = append(ins, n)
+			} else if g.lvl != f.lvl {
+				moved = append(moved, n)
+			}
+		}
+		for n := range cur {
+			if _, ok := known[n]; !ok {
+				outNums = append(outNums, n)
+			}
+		}
+		sort.Ints(ins)
+		sort.Ints(outNums)
+		for _, n := range outNums {
+			outs = append(outs, trace.F{"f": n, "lvl": cur[n].lvl, "min": kp(cur[n].min), "max": kp(cur[n].max)})
+		}
+		switch {
+		case len(moved) == 1 && len(ins) == 0 && len(outs) == 0 && cur[moved[0]].lvl == 1:
+			r.emit("Moved", trace.F{"f": moved[0]})
+		default: // (also a job that changed nothing, or moved files otherwise: no Compacted step explains those)
+			r.emit("Compacted", trace.F{"ins": ins, "outs": outs, "moved": len(moved)})
+		}
+		known = r.emitListed(getSnap, levels)
+		return true
+	}
+
+	pool := r.levelPool(16)
+	val := atomsOf
+	if variant%2 == 0 { // a single level-0 file and nothing above: the store's check moves it to level 1
+		if !flush(r.pick(pool, 6, 10, pool[6+r.rng.Intn(4)])) || !compact() {
+			return
+		}
+	}
+	// round 1: the core p[6..9]
+	for c := 2 + r.rng.Intn(2); c > 0; c-- {
+		if !flush(r.pick(pool, 6, 10, pool[6+r.rng.Intn(4)])) {
+			return
+		}
+	}
+	if !compact() {
+		return
+	}
+	r.probeLevels(getSnap, pool, 2, val, bad)
+	// round 2: left and right of the core, nothing in it
+	if !flush(r.pick(pool, 3, 6, pool[3+r.rng.Intn(3)])) || !flush(r.pick(pool, 10, 13, pool[10+r.rng.Intn(3)])) {
+		return
+	}
+	if !compact() {
+		return
+	}
+	r.probeLevels(getSnap, pool, levelReps, val, bad)
+	// round 3: further out, or random steps
+	if r.rng.Intn(2) == 0 {
+		if !flush(r.pick(pool, 0, 3, pool[r.rng.Intn(3)])) || !flush(r.pick(pool, 13, 16, pool[13+r.rng.Intn(3)])) {
+			return
+		}
+		if !compact() {
+			return
+		}
+		r.probeLevels(getSnap, pool, levelReps/2, val, bad)
+	}
+	for steps := r.rng.Intn(4); steps > 0; steps-- {
+		switch r.rng.Intn(3) {
+		case 0, 1:
+			a := r.rng.Intn(len(pool))
+			b := a + 1 + r.rng.Intn(len(pool)-a)
+			if !flush(r.pick(pool, a, b, pool[a])) {
+				return
+			}
+		default:
+			if !compact() {
+				return
+			}
+		}
+		r.probeLevels(getSnap, pool, 4, val, bad)
+	}
+	if r.rng.Intn(2) == 0 {
+		_ = kv.GetStoreManager().CloseStore(path)
+		closed = true
+		store, err = kv.GetStoreManager().CreateStore(path, opt)
+		if err != nil {
+			r.sum.Unresolved = append(r.sum.Unresolved, "reopen store: "+err.Error())
+			return
+		}
+		closed = false
+		fam = store.GetFamily("f")
+		if fam == nil {
+			r.emit("Found", trace.F{"k": kp(0), "fs": []int{-1}})
+			return
+		}
+		r.emitListed(getSnap, levels)
+		r.probeLevels(getSnap, pool, 8, val, bad)
+	}
+}
+
+// encodeAtomsLE: the value format of the union merger (ascending distinct atoms, 4 bytes each, little endian)
+func encodeAtomsLE(atoms []uint32) []byte {
+	b := make([]byte, 0, 4*len(atoms))
+	for _, a := range atoms {
+		var x [4]byte
+		binary.LittleEndian.PutUint32(x[:], a)
+		b = append(b, x[:]...)
+	}
+	return b
+}
+
 // ---------------------------------------------------------------- big tables
 
 func (r *tblRun) bigHistory(h, n int) {
@@ -751,6 +1295,7 @@ func tableMain(args []string) int {
 	nv := fs.Int("versions", 20, "histories of version lookups over a kv store")
 	nb := fs.Int("big", 1, "big tables")
 	ne := fs.Int("emptyflush", 0, "version histories whose last flush carries only empty values")
+	nl := fs.Int("levels", 0, "level histories: overlapping files above level 0 (edit log installs; flush + level-0 compactions), each count")
 	bign := fs.Int("bigkeys", 100000, "keys of a big table")
 	maxN := fs.Int("maxkeys", 1200, "upper bound of the keys of a fully logged table")
 	scratch := fs.String("scratch", "", "scratch directory")
@@ -780,6 +1325,12 @@ func tableMain(args []string) int {
 	for i := 0; i < *ne; i++ {
 		h++
 		r.guarded(func() { r.versionHistory(h, true) })
+	}
+	for i := 0; i < *nl; i++ {
+		h++
+		r.guarded(func() { r.levelEditLogHistory(h, i) })
+		h++
+		r.guarded(func() { r.levelCompactHistory(h, i) })
 	}
 	for i := 0; i < *nb; i++ {
 		h++
